@@ -12,7 +12,8 @@ RULE = ("random histories (5-40 operations) over the 24 listed AnnealResults ope
         "mirrored on a plain-list shadow. A history is non-trivial when it contains >= 3 distinct "
         "operation kinds and the collection was non-empty at some point; distinct = digest of the "
         "operation sequence with operands")
-TIERS = {"quick": {"shards": 4, "cases": 900}, "thorough": {"shards": 16, "cases": 20000}}
+TIERS = {"quick": {"shards": 4, "cases": 10000}, "thorough": {"shards": 16, "cases": 40000}}
+FLOOR_BASE = {"quick": 900, "thorough": 20000}    # case counts the floors below were calibrated for; the launcher scales them
 OPS = ["construct", "append", "add_state", "insert", "remove", "pop", "extend", "add", "iadd",
        "mul", "slice", "setitem", "delitem", "setslice", "delslice", "clear", "sort", "copy",
        "filter", "filter_states", "apply_function", "convert_states", "to_boolean", "to_spin"]
